@@ -192,3 +192,15 @@ Example c18_registry_order_example :
   Permutation f20_reg (rev f20_reg) /\ NoDup (map fst f20_reg) /\ f20_reg <> rev f20_reg.
 Proof. exact registry_order_example. Qed.
 Print Assumptions c18_registry_order_example.
+
+(* ---- the URL derived when a TLS key is configured and no URL is given is built from
+   the host AS WRITTEN in the file's address (and port + 1); the model has no resolver,
+   so no result depends on the name service of the reading process ---- *)
+Theorem c18_tls_url_from_written_host : forall f r c k sk p l,
+  co_suite_known c = true -> co_pub c = Some k -> co_priv c = Some sk ->
+  parse_services f r (co_srv c) = Some l ->
+  co_tlskey c <> [] -> co_url c = [] -> co_port c = Some p ->
+  exists i, get_server_identity f r c = IOk i /\
+            i_url i = tls_url_prefix ++ co_host c ++ colon ++ dec_of_Z (p + 1).
+Proof. exact tls_url_from_written_host. Qed.
+Print Assumptions c18_tls_url_from_written_host.
